@@ -479,13 +479,13 @@ PROPS = {
     ),
     "C04": dict(
         lean="AnyDB.Props.C04",
-        lean_extra=["AnyDB.Props.C04Raw", "AnyDB.Props.C04Record", "AnyDB.Props.C04Commit", "AnyDB.Props.C04Multi"],
+        lean_extra=["AnyDB.Props.C04Raw", "AnyDB.Props.C04Record", "AnyDB.Props.C04Commit", "AnyDB.Props.C04Multi", "AnyDB.Props.C04Comp"],
         runs=[
             Run("vec", "rollback", ["--mode", "rollback"], (196, 50), (900, 110), proj_vec, ["C04", "C16", "panic"], vec_features),
         ],
         rule=VEC_RULE,
         assumptions=["pco / lz4_flex / zstd round-trip every page", "the change directory is only modified by the vector itself"],
-        level_text="Lean 4 theorems for ANY NUMBER of consecutive rollbacks on the raw formats (Props/C04Multi.lean): a committed state is described by a snapshot (stamp, stored length, deleted slots, the value of every stored slot); undo_shows: undoing a record that is faithful for the commit c0→c on ANY physical state that presents c — whatever is in its overlay and in the region — yields a state that presents c0 (via the entry-by-entry overlay characterisation of the undo); C04_rollbacks_raw lifts this by induction over the chain of retained records; C04_commits_then_rollbacks_raw ties it to the model's commits (record = recordOf, write = writeRaw, edits = any pushes/truncations/updates/deletions): after rolling back through all records every index reads exactly what it read in the oldest committed state, deleted slots included, with that state's stamp and length. Further: Lean 4 theorems: after any undo the restored state is the baseline of the next change record (C04_baseline: previous stored length = stored length, previous buffer = buffer, stamp = recorded stamp); for compressed formats, whatever mixture of disk and buffer currently holds the logical contents L, undoing a record yields exactly L.take(ts) ++ truncated ++ previous buffer (C04_comp_undo_logical), so consecutive undos compose, and the logical stored length never exceeds the real one afterwards; rollback reads only the record filed under the current stamp. The end-to-end statement over commit histories (all formats, retention 1/2/3/10, continuations after rollback incl. re-import) is validated by the correspondence against a stack-of-committed-states oracle. Raw formats (Props/C04Raw.lean): for every state and every record whose modifications address stored slots of the previous state, the undo succeeds, restores stamp, stored length, buffer and deleted slots and every index reads the record's value where it has one and the slot's current value elsewhere (C04_raw_undo_items); and one commit/rollback pair end to end: from a cleanly committed state p, after ANY pushes, truncations, updates and deletions, the next commit's write and a record that describes the way back, a rollback makes every index read exactly what it read in p (C04_commit_rollback_raw, with after_* and written_of_write discharging its hypotheses); the record round-trips through its bytes (C04_record_roundtrip: parse_change_data ∘ serialize_changes = the record's content, with the cursor's checked arithmetic, for every state whose numbers fit their fields), the record the commit writes describes the way back (faithful_recordOf), and all of it composes on the model's own commit and rollback: from a cleanly committed p, after any pushes, truncations, updates, deletions and a successful commit, rollback succeeds and every index reads exactly what it read in p, stamp / stored length / buffer / deleted slots are p's (C04_commit_then_rollback_raw). Several rollbacks in a row on raw vectors, take/fill among the edits and re-import in between are covered by the correspondence only.",
+        level_text="Lean 4 theorems for ANY NUMBER of consecutive rollbacks on the raw formats (Props/C04Multi.lean): a committed state is described by a snapshot (stamp, stored length, deleted slots, the value of every stored slot); undo_shows: undoing a record that is faithful for the commit c0→c on ANY physical state that presents c — whatever is in its overlay and in the region — yields a state that presents c0 (via the entry-by-entry overlay characterisation of the undo); C04_rollbacks_raw lifts this by induction over the chain of retained records; C04_commits_then_rollbacks_raw ties it to the model's commits (record = recordOf, write = writeRaw, edits = any pushes/truncations/updates/deletions): after rolling back through all records every index reads exactly what it read in the oldest committed state, deleted slots included, with that state's stamp and length. Further: Lean 4 theorems: after any undo the restored state is the baseline of the next change record (C04_baseline: previous stored length = stored length, previous buffer = buffer, stamp = recorded stamp); for compressed formats, whatever mixture of disk and buffer currently holds the logical contents L, undoing a record yields exactly L.take(ts) ++ truncated ++ previous buffer (C04_comp_undo_logical), so consecutive undos compose, and the logical stored length never exceeds the real one afterwards; rollback reads only the record filed under the current stamp. The end-to-end statement over commit histories (all formats, retention 1/2/3/10, continuations after rollback incl. re-import) is validated by the correspondence against a stack-of-committed-states oracle. Raw formats (Props/C04Raw.lean): for every state and every record whose modifications address stored slots of the previous state, the undo succeeds, restores stamp, stored length, buffer and deleted slots and every index reads the record's value where it has one and the slot's current value elsewhere (C04_raw_undo_items); and one commit/rollback pair end to end: from a cleanly committed state p, after ANY pushes, truncations, updates and deletions, the next commit's write and a record that describes the way back, a rollback makes every index read exactly what it read in p (C04_commit_rollback_raw, with after_* and written_of_write discharging its hypotheses); the record round-trips through its bytes (C04_record_roundtrip: parse_change_data ∘ serialize_changes = the record's content, with the cursor's checked arithmetic, for every state whose numbers fit their fields), the record the commit writes describes the way back (faithful_recordOf), and all of it composes on the model's own commit and rollback: from a cleanly committed p, after any pushes, truncations, updates, deletions and a successful commit, rollback succeeds and every index reads exactly what it read in p, stamp / stored length / buffer / deleted slots are p's (C04_commit_then_rollback_raw). Several rollbacks in a row on raw vectors, take/fill among the edits and re-import in between are covered by the correspondence only. The COMPRESSED formats have the same two theorems over the model's own commit and rollback (Props/C04Comp.lean): the change record of a compressed vector round-trips through its bytes (C04_record_roundtrip_comp); C04_commit_then_rollback_comp — from a baseline (just committed or just rolled back), after any pushes and truncations, the commit succeeds whatever the compressor answers, rollback then succeeds and the vector shows exactly what it showed at the baseline, under the baseline's stamp; and C04_commits_then_rollbacks_comp — any number of such rounds, then ALL records undone newest first: no undo fails and the vector shows the baseline again (the undo is re-based on the current logical contents, so it is correct from any state that presents the newer snapshot: undo_shows_c, C04_rollbacks_comp).",
         level_note="Trusted: Lean kernel + standard axioms; hand-written model; harness. The pinned tree violated C04 in three ways (bare rollback() left a stale baseline; compressed chained rollback across a truncating commit; raw write after a rolled-back truncation failed and lost the buffer): all three repaired by fix: commits, listed as fixed in known_findings.json.",
         technique="Lean 4 proof (list algebra of the undo on the logical contents) + lock-step correspondence with a committed-state-stack oracle",
     ),
